@@ -6,6 +6,7 @@ import collections
 import importlib
 import inspect
 import json
+import os
 import pkgutil
 import re
 
@@ -286,7 +287,7 @@ def _(ctx, slot, k):
     return None if k is None else ctx.fn(slot, lambda: _subject(ctx, k))
 
 
-@kind("obsmapper", st.sampled_from([None, None, "merge", "concat", "zip"]))
+@kind("obsmapper", st.sampled_from([None, None, "merge", "concat", "concat", "late", "zip"]))
 def _(ctx, slot, k):
     if k is None:
         return None
@@ -294,6 +295,8 @@ def _(ctx, slot, k):
         return ctx.fn(slot, lambda shared: reactivex.merge(shared.pipe(ops.map(lambda x: ("m", x))), shared))
     if k == "concat":
         return ctx.fn(slot, lambda shared: reactivex.concat(shared, shared))
+    if k == "late":
+        return ctx.fn(slot, lambda shared: reactivex.merge(shared, shared.pipe(ops.delay_subscription(3))))
     return ctx.fn(slot, lambda shared: reactivex.zip(shared, shared))
 
 
@@ -855,6 +858,63 @@ def _run_form(case, fparams):
 
 
 # ---------------------------------------------------------------------------------------
+# guaranteed per-method coverage: enumerated (method, block) cases expanded deterministically
+
+_METHODS = {}
+
+
+def _each_cases(tier):
+    seed = int(os.environ.get("VERIF_SEED", "1") or "1")
+    scale = float(os.environ.get("VERIF_SCALE", "1") or "1")
+    blocks, k = (3, 8) if tier == "quick" else (max(1, int(20 * scale)), 25)
+    for name in sorted(_METHODS):
+        for j in range(blocks):
+            yield {"m": name, "seed": seed, "block": j, "k": k}
+
+
+def _expand(case):
+    from hypothesis import HealthCheck, Phase, given, seed, settings
+
+    name = case["m"]
+    if name not in _METHODS:
+        found = fluent_methods()
+        _METHODS.update({n: p for _, n, p in found})
+    if name not in _METHODS:
+        raise HarnessError(f"replayed method {name} no longer exists")
+    out = []
+
+    @seed(stable_hash([name, case["seed"], case["block"]]))
+    @settings(max_examples=case["k"], database=None, deadline=None, phases=[Phase.generate], suppress_health_check=list(HealthCheck))
+    @given(_case_strategy(name, _METHODS[name]))
+    def collect(c):
+        out.append(c)
+
+    collect()
+    return out
+
+
+def _run_each(case):
+    nontrivial = False
+    classes = []
+    n = 0
+    for c in _expand(case):
+        r = _run(c)
+        if r.inconclusive:
+            continue
+        n += 1
+        if not r.ok:
+            return r
+        nontrivial = nontrivial or r.nontrivial
+        for x in r.classes:
+            if x not in classes and not x.startswith("forms"):
+                classes.append(x)
+    if n == 0:
+        return SKIP("spin-or-budget")
+    classes.append(f"expanded={n}")
+    return OK(nontrivial, classes)
+
+
+# ---------------------------------------------------------------------------------------
 # strategies
 
 
@@ -887,12 +947,15 @@ def _case_strategy(name, params):
 def checks(tier):
     found = fluent_methods()
     _validate(found)
-    by_mod = {}
-    for mod, name, params in found:
-        by_mod.setdefault(mod, []).append((name, params))
-    out = []
-    for mod in sorted(by_mod):
-        ms = by_mod[mod]
-        strat = st.sampled_from(sorted(n for n, _ in ms)).flatmap(lambda n, ms=dict(ms): _case_strategy(n, ms[n]))
-        out.append(Check(mod, _run, strategy=strat, examples={"quick": 30 * len(ms), "thorough": 2000 * len(ms)}, shards={"quick": 8, "thorough": 16}))
-    return out
+    ms = {name: params for _, name, params in found}
+    _METHODS.clear()
+    _METHODS.update(ms)
+    strat = st.sampled_from(sorted(ms)).flatmap(lambda n: _case_strategy(n, ms[n]))
+    # "each": enumerated over (method, block) so that every method is exercised in every run -- a block draws K cases for
+    #   that one method from its strategy with a seed derived from (method, VERIF_SEED, block).
+    # "fluent": one generated check over all methods (shrinking, larger per-shard example counts); failures are bucketed
+    #   per method by their signature "<clause>|<method>".
+    return [
+        Check("each", _run_each, cases=_each_cases, shards={"quick": 8, "thorough": 16}),
+        Check("fluent", _run, strategy=strat, examples={"quick": 20 * len(ms), "thorough": 1500 * len(ms)}, shards={"quick": 8, "thorough": 16}),
+    ]
